@@ -333,7 +333,7 @@ struct QueTarget
             bool const fore = (o.kind - 200) == Q_PUSH_FORE_SORT;
             bool const was_sorted = sorted(x.M, x.z);
             size_t const before = x.M.size();
-            if (was_sorted && ((uint64_t)(o.a[0] < 0 ? -o.a[0] : o.a[0]) >> 5) % 6 == 0)
+            if (was_sorted && ((uint64_t)(o.a[0] < 0 ? -o.a[0] : o.a[0]) >> 5) % 6 == 5)
             { // the re-sorting step alone on a queue that is sorted already (empty and one-element queues included): nothing may move
                 char const *name0 = fore ? "a_que_sort_fore" : "a_que_sort_back";
                 c.st.add(before == 0 ? "probe.sort_step_on_empty_sequence" : before == 1 ? "probe.sort_step_on_single_element" : "probe.sort_step_on_sorted_sequence");
